@@ -476,6 +476,15 @@ pub fn run() {
         found.extend(vio);
     }
     handler_level(&mut rep, &mut found);
+    // the same handler-level clause on every `Established(Incoming)` of the attacker worlds
+    let (ast, avio, _) = crate::attack::explore("C12", thorough, mc::budget(thorough, 20.0, 0.2), if thorough { 3 } else { 2 });
+    rep.set("attacker_worlds_states", ast.states);
+    rep.set("attacker_worlds_incoming_established", ast.counters.get("incoming_established").copied().unwrap_or(0));
+    if !ast.exhaustive {
+        exhaustive = false;
+        caps.push(format!("attacker worlds: {}", ast.cap.clone().unwrap_or_default()));
+    }
+    found.extend(avio);
     rep.set("states", states);
     rep.set("transitions", trans);
     rep.set("traces_validated_against_impl", execs);
